@@ -169,7 +169,9 @@ impl Property for C11 {
          endpoints (unordered, bit-identical); SinglePoint.is_proper <=> interior to both (not asserted for zero-length segments); \
          improper point bit-identical to the endpoint involved; proper point inside both bounding boxes and, when |sin angle| > 2^-20, \
          within 16 ulp(max|coord|) / |sin angle| of the true crossing; agreement with Line::intersects; same class / improper point / overlap when the \
-         two segments are swapped or reversed. Non-trivial = the segments' envelopes intersect."
+         two segments are swapped or reversed; the same four points rounded to f32 through line_intersection::<f32> and \
+         Line<f32>::intersects against the exact classification of the rounded points; uniformly extreme scales 2^+-200..395. \
+         Non-trivial = the segments' envelopes intersect."
             .into()
     }
     fn must_hit() -> Vec<&'static str> {
